@@ -151,6 +151,11 @@ impl RuntimeData {
         }
     }
 
+    /// The allocator of this runtime
+    pub fn verif_memory(&self) -> &AllocProxy {
+        &self.memory
+    }
+
     /// Number of values on the value stack
     pub fn verif_stack_height(&self) -> usize {
         self.value_stack.len()
